@@ -70,6 +70,11 @@ CLAIMED = {
    text="Proof: for every built-in row (19 at the pinned tree; the table is re-read from the expanded source each run) the integer type has the width of Self and, among its values, MIN_VALUE..=MAX_VALUE is exactly the set of valid values of Self (bool 0..1, integers all, unsigned NonZero all but 0); from_integer returns Some exactly on [MIN_VALUE, MAX_VALUE] (the translated range test, all integers) and into_integer(from_integer v) = v; the range test is identical under every feature set. Tie: every built-in impl probed with every value of 8- and 16-bit types and MIN-1..MAX+1/0/-1/extremes of wider ones; derived enums of every integer repr (ascending, descending, shuffled; at the type's extremes; single-variant) probed the same way against hand-implemented twins that use the default methods.",
    note="Trusted: Coq kernel; nightly rustc's -Zunpretty=expanded + the table extractor (bm2coq/expand.rs); Model/LangInt.v (validity of built-in types); harness. Derived enums: the derive logic itself is modelled in C06.",
    ref="5/C17"),
+ "C04": dict(
+   technique="Coq theorem by induction on derivations over the impl table REGENERATED from the macro-expanded source per feature configuration: every row is sound for every instantiation (monotone language oracle + least-facts check proved sound, re-run on the regenerated table); exact correspondence of an executable trait solver over that table with rustc's trait solver on a closed type universe (census)",
+   text="Proof: for each of the four feature configurations, whenever a marker follows for a ground type from the regenerated impl rows (any instantiation of the generic rows, to any nesting depth, array length or arity), the language oracle guarantees that marker's contract for the type; the proof is generic (oracle monotone in the parameters' facts, contracts are conjunctions of facts) plus a per-row computation that is re-run on the table extracted from the current source, so an added or weakened row that is not sound makes the theorem fail; the lattice is a theorem about the contracts; the unsound_ptr_pod_impl row is refuted. Tie: rustc's own answer (inherent-const-over-trait-const probe) for ~3000 (thorough ~9000) types x 7 markers per configuration - all leaves, every constructor over every leaf, two-level applications, arrays of listed/unlisted/zero length, tuples 1..9, raw/fat pointers, references, fn pointers of every ABI - compared exactly (presence AND absence) with the executable solver over the regenerated table, and every reported impl checked against the oracle by the monitor.",
+   note="Trusted: Coq kernel; Model/LangOracle.v - the reading of the Rust reference/std docs (DESIGN.md section 4.1) is the specification here; nightly rustc -Zunpretty=expanded and the table extractor; that a rustc impl is a derivation from the rows (semantics of trait resolution; the census validates it on the universe); host target x86-64 only (SIMD, atomics).",
+   ref="5/C04"),
 }
 
 checks = []
